@@ -303,6 +303,46 @@ func C08(p *Prog, r *Run) {
 		r.checkSpeciatePartition("speciate")
 		r.checkCreateFirstSpecies("createFirstSpecies")
 	})
+
+	r.Rule("C08.4", "only speciate assigns membership: addOrganism is called from speciate and createFirstSpecies only, createFirstSpecies from speciate only, and nobody else stores an organism's Species back pointer - so every organism that is in a species was compared with the representatives first", func() {
+		spec := p.Func(PkgG, "Population.speciate")
+		cfs := p.Func(PkgG, "createFirstSpecies")
+		add := p.Func(PkgG, "Species.addOrganism")
+		back := p.Field(PkgG, "Organism", "Species")
+		nCalls, nSt := 0, 0
+		for _, fn := range p.SrcFuncs() {
+			for _, c := range CallsTo(fn, add) {
+				nCalls++
+				r.Check(fn == spec || fn == cfs, "addOrganism.caller:"+fn.Name(), p.Pos(c.Pos()), "called by the speciation code", FuncName(fn)+" puts an organism into a species without speciate's comparison with the representatives (nearest compatible species / founding when none is compatible)")
+			}
+			for _, c := range CallsTo(fn, cfs) {
+				nCalls++
+				r.Check(fn == spec, "createFirstSpecies.caller:"+fn.Name(), p.Pos(c.Pos()), "called by speciate", FuncName(fn)+" founds a species for an organism outside speciate: whether an existing representative is within the threshold is not examined")
+			}
+			for _, st := range FieldStores(fn, back) {
+				nSt++
+				okS := fn == spec || fn == cfs
+				if !okS {
+					// a constructor initialising its own fresh organism, or a nil reset
+					if fa, ok := st.Addr.(*ssa.FieldAddr); ok {
+						if _, fresh := fa.X.(*ssa.Alloc); fresh {
+							okS = true
+						}
+					}
+					if c, ok := st.Val.(*ssa.Const); ok && c.Value == nil {
+						okS = true
+					}
+				}
+				r.Check(okS, "Organism.Species.writer:"+fn.Name(), p.Pos(st.Pos()), "back pointer set by the speciation code", FuncName(fn)+" sets an organism's species back pointer outside speciate")
+			}
+		}
+		r.Floor("membership call sites", nCalls, 4)
+		r.Floor("back-pointer stores", nSt, 2)
+	})
+
+	r.Rule("C08.5", "the distance compared with the threshold is the compatibility formula: Genome.compatibility only dispatches to the two walks (shared with C07.1)", func() {
+		r.c07Dispatch()
+	})
 }
 
 func firstBlockPos(b *ssa.BasicBlock) token.Pos {
